@@ -214,8 +214,10 @@ pub fn calc_twap(
         return Ok(current_price);
     }
 
-    // an interval longer than the chain's clock reaches back beyond every snapshot: the window starts at zero
-    let base_timestamp = env.block.time.seconds().saturating_sub(interval);
+    // an interval longer than the chain's clock reaches back beyond every snapshot: the window is
+    // [0, now], and the average is taken over that window
+    let interval = interval.min(env.block.time.seconds());
+    let base_timestamp = env.block.time.seconds() - interval;
     let reserve_snapshot_length = read_reserve_snapshot_counter(deps.storage).unwrap();
     let mut current_snapshot = read_reserve_snapshot(deps.storage, params.snapshot_index)?;
 
